@@ -1,7 +1,7 @@
 """C39 - identical behaviour across build configurations.
 
-A portfolio of ~370 (quick) / ~775 (thorough) pure-Python functions (props/_g11_c39portfolio.py: arithmetic with constants via C02's generator,
-str/bytes methods, formatting, indexing, comparisons, exceptions, generators, argument binding, classes, closures) with
+A portfolio of ~470 (quick) / ~860 (thorough) pure-Python functions (props/_g11_c39portfolio.py: arithmetic with constants via C02's generator,
+str/bytes methods, formatting, indexing incl. the complete wraparound window [-3*len-1, 2*len+1] with C-int and object indices, comparisons, exceptions, generators, argument binding, classes, closures) with
 complete small input sets is built under EVERY single deviation from the default build configuration:
 language C++; -O2, -O3; each feature macro flipped (CYTHON_USE_PYLONG_INTERNALS=0, CYTHON_USE_UNICODE_INTERNALS=0,
 CYTHON_VECTORCALL=0, CYTHON_AVOID_BORROWED_REFS=1, CYTHON_ASSUME_SAFE_MACROS=0, CYTHON_ASSUME_SAFE_SIZE=0,
@@ -22,7 +22,7 @@ from props import _g11_c39portfolio as PF
 LEVEL = 'exploration'
 ENGINE = 'E2 diffexplore'
 TECHNIQUE = 'complete single-deviation (thorough: pair) configuration matrix x complete portfolio x complete input sets, every cell vs CPython on the identical source'
-LEVEL_TEXT = ('About 370 (quick) / 775 (thorough) pure-Python functions (constant arithmetic, str/bytes methods, formatting, indexing, comparisons, exceptions, '
+LEVEL_TEXT = ('About 470 (quick) / 860 (thorough) pure-Python functions (constant arithmetic, str/bytes methods, formatting, indexing, comparisons, exceptions, '
               'generators, argument binding, classes, closures) with complete small input sets are compiled under every single '
               'deviation from the default configuration (C++, -O2, -O3, 19 feature-macro cells incl. Limited API and the four '
               'string-compression settings, 6 directive cells; thorough: all pairs among 8 interacting macros plus language x '
